@@ -2,6 +2,13 @@
 """Regenerates MANIFEST.json from the table below (kept in one place so the manifest stays valid)."""
 import json
 CLAIMED = {
+ "C09": ("theorems C09_decoder_exact (decode_packet = spec_decode, a flat decision procedure on the bytes, for every byte string outside the panic classes), C09_decoder_panics_iff (exact characterisation of the panic classes), C09_accept_iff_wellformed (accept <-> wf_packet, the property's own well-formedness predicate) and C09_oracle_holds_on_model (payload range, truthful errors); context independence: the model's decoder has no context argument, the correspondence decodes every case on a second context with another address/configuration/history", "§6 C09"),
+ "C04": ("theorems C04_oracle_holds_on_model (every well-formed history: framing bytes, byte count, 4<=n<=259, probe on every prefix, oversize refused), C04_generate_fits / C04_generate_oversize_refused (closed form of the packet generators for all inputs); correspondence on all encoders, the 128x128 address grid, body sizes 10..300", "§6 C04"),
+ "C05": ("theorems C05_oracle_holds_on_model (bytes 4-8 of every encoded packet in every history) + closed forms of the transport and body headers for all 256x256 (source, destination) / all types; correspondence on all encoders and the header helper", "§6 C05"),
+ "C06": ("theorem C06_oracle_holds_on_model: every request body = 0x80, DSP0236 code, parameters (spec_request) for all 17 encoders and all argument values, with query_hop's command code as the recorded known finding (C06_query_hop_refuted proves the model really fails there); correspondence incl. every value of each byte parameter", "§6 C06"),
+ "C07": ("theorem C07_oracle_holds_on_model: every response body = 0x00, code, completion code, and the DSP0236 fields for Success (spec_response), for all six encoders, all codes / enums / EIDs / lists; correspondence", "§6 C07"),
+ "C08": ("theorems C08_oracle_holds_on_model + PCI/IANA header closed forms (the 32-bit case by induction over the chunked bit loop, not by sweep); correspondence over all format bytes and body lengths", "§6 C08"),
+ "C16": ("theorems C16_oracle_holds_on_model (success without panic on any long-enough buffer, tail untouched, independence of prior contents/capacity, documented refusals leave the buffer untouched) and C16_encoders_refine_spec (every encoder = spec_packet ++ untouched tail); correspondence with 3 buffers per call", "§6 C16"),
  "C17": ("theorem C17_closed_form: get_length p, for every byte string p, is the stated function of (length p < 3, p[1], p[2]) and never panics; plus the oracle statement over all histories; differential correspondence on all 2^16 (byte1, byte2) pairs x several byte0 values / continuations / contexts", "§6 C17"),
  "C19": ("theorems C19_message_type / C19_command_code / C19_completion_code for all byte values (finite sweep lifted to a quantifier, kernel-checked); correspondence exhaustive over 3 x 256 conversions", "§6 C19"),
  "C03": ("theorem C03_encoded_packet_ends_with_pec (all ops, contexts, both overflow modes) + pec = polynomial remainder mod x^8+x^2+x+1 (existence and uniqueness), Rocq kernel-checked; differential correspondence model vs /repo on every encoder and every packet length 12..262", "§6 C03"),
